@@ -1,22 +1,38 @@
 #!/bin/sh
 # Runs every seeded change against the check of the property it breaks (quick tier) and writes seeded/RESULTS.tsv:
 #   seed  property  applies  exit-code  first VIOLATION line
-# /repo must be clean; each patch is applied, the check is run, and /repo is restored.
+# /repo is never touched: each patch is applied to a scratch worktree under /var/tmp which the check reads through
+# PW_REPO; JOBS seeds run side by side (default 3).  Some seeds are (also) caught by the check of ANOTHER property; that
+# is recorded in meta.json "caught_by" and used here instead of "property" when present.
 cd /verif
 OUT=seeded/RESULTS.tsv
-printf "seed\tproperty\tapplies\texit\tdetail\n" > $OUT
-for d in seeded/*/; do
+JOBS=${JOBS:-3}
+mkdir -p .scratch/matrix
+rm -f .scratch/matrix/*.row
+one() {
+  d=$1
   SID=$(basename $d)
-  PID=$(python3 -c "import json;print(json.load(open('$d/meta.json'))['property'])")
-  if ! git -C /repo diff --quiet; then echo "/repo dirty"; exit 9; fi
-  if git -C /repo apply --check /verif/$d/patch.diff 2>/dev/null; then
-    git -C /repo apply /verif/$d/patch.diff
-    SYMX_EVIDENCE_DIR=/var/tmp/seed_ev ./check $PID --tier quick > .scratch/matrix_${SID}.out 2>&1; RC=$?
-    git -C /repo checkout -- .
-    V=$(grep -m1 "^VIOLATION" .scratch/matrix_${SID}.out | sed -e 's/.*json  //' | cut -c1-160)
-    printf "%s\t%s\tyes\t%s\t%s\n" $SID $PID $RC "$V" >> $OUT
+  PID=$(python3 -c "import json;m=json.load(open('$d/meta.json'));print(m.get('caught_by') or m['property'])")
+  WT=/var/tmp/seedwt_m_$SID
+  if git -C $WT apply /verif/$d/patch.diff 2>/dev/null; then
+    PW_REPO=$WT SYMX_EVIDENCE_DIR=/var/tmp/seed_ev_m_$SID ./check $PID --tier quick > .scratch/matrix/${SID}.out 2>&1; RC=$?
+    V=$(grep -m1 "^VIOLATION" .scratch/matrix/${SID}.out | sed -e 's/.*json  //' | cut -c1-160)
+    printf "%s\t%s\tyes\t%s\t%s\n" $SID $PID $RC "$V" > .scratch/matrix/$SID.row
   else
-    printf "%s\t%s\tno\t-\tpatch does not apply to the current tree\n" $SID $PID >> $OUT
+    printf "%s\t%s\tno\t-\tpatch does not apply to the current tree\n" $SID $PID > .scratch/matrix/$SID.row
   fi
+  git -C /repo worktree remove --force $WT
+  rm -rf /var/tmp/seed_ev_m_$SID
+}
+N=0
+for d in seeded/*/; do
+  WT=/var/tmp/seedwt_m_$(basename $d)
+  rm -rf $WT; git -C /repo worktree prune; git -C /repo worktree add -q --detach $WT HEAD
+  one $d &
+  N=$((N+1))
+  if [ $((N % JOBS)) -eq 0 ]; then wait; fi
 done
+wait
+printf "seed\tproperty\tapplies\texit\tdetail\n" > $OUT
+cat .scratch/matrix/*.row >> $OUT
 cat $OUT
